@@ -281,6 +281,72 @@ def bounds(tier):
           (dict(max_nodes=3, max_vars=2, max_bindings=3, max_warm=1, kmax=2, rich=True), 5)]
 
 
+# ---------------------------------------------------------------- query histories on enumerated graphs
+#
+# The BFS above starts from the empty program, so within its depth it only reaches small structures.
+# This phase starts from non-initial states: every typegraph of C07's cyclic / conditioned families is
+# built, and ALL queries of the alphabet are asked on one long-lived program in forward order, on a
+# second one in reverse order, and each on its own freshly built program; the three answers must agree
+# and re-asking on the long-lived programs must not flip.
+
+
+def graph_items(tier):
+  from vk.checks import c07
+  items = []
+
+  def add(n, b, v, cyclic, D, maxcond, only=None):
+    for es in c07.edge_sets(n, cyclic):
+      for va in c07.rgs(b, v):
+        if only is None or va in only:
+          items.append((n, es, va, D, maxcond))
+  if tier == "quick":
+    add(3, 2, 2, True, 1, 1)
+    add(2, 3, 2, True, 2, 1)
+    add(3, 3, 2, False, 1, 1)
+  else:
+    add(3, 3, 3, True, 2, 1, only=[(0, 1, 2)])
+    add(3, 2, 2, True, 2, 2)
+    add(2, 3, 2, True, 2, 2)
+    add(3, 3, 2, False, 2, 1)
+    add(4, 2, 2, True, 1, 1)
+  return items
+
+
+def graph_work(item):
+  from vk import tg
+  from vk.checks import c07
+  n, edges, vars_, D, maxcond = item
+  st = {"graphs": 0, "queries": 0, "true": 0}
+  viol = []
+  for origins, conds in c07.specs_for(item):
+    spec = c07.to_spec(n, edges, vars_, origins, conds)
+    st["graphs"] += 1
+    b = len(vars_)
+    queries = [(q, S) for q in range(n) for S in tg.subsets(range(b), 2)]
+    ga = tg.build(spec)
+    fwd = [ga.nodes[q].HasCombination([ga.bobjs[i] for i in S]) for q, S in queries]
+    gb = tg.build(spec)
+    rev = [gb.nodes[q].HasCombination([gb.bobjs[i] for i in S]) for q, S in reversed(queries)][::-1]
+    again = [ga.nodes[q].HasCombination([ga.bobjs[i] for i in S]) for q, S in queries]
+    st["queries"] += 3 * len(queries)
+    if fwd == rev == again and not any(fwd) :
+      # all False in both orders: a fresh program per query can only differ if it says True; still checked below
+      pass
+    for k, (q, S) in enumerate(queries):
+      gf = tg.build(spec)
+      fresh = gf.nodes[q].HasCombination([gf.bobjs[i] for i in S])
+      st["queries"] += 1
+      st["true"] += bool(fresh)
+      if not (fwd[k] == rev[k] == again[k] == fresh):
+        if len(viol) < 10:
+          viol.append((spec, "HasCombination(n%d, %s): fresh program %s, after %d earlier queries %s, after the %d later "
+                             "queries (reverse order) %s, asked again %s" % (q, list(S), fresh, k, fwd[k],
+                                                                             len(queries) - 1 - k, rev[k], again[k]),
+                       {"q": q, "S": list(S)}))
+        break
+  return st, viol
+
+
 def run(rep, tier, seed):
   import os
   boot.load()
@@ -296,8 +362,25 @@ def run(rep, tier, seed):
     states += st
     trans += tr
     allb.append({"bounds": dict(kw, depth=depth), "states": st, "transitions": tr, "levels": lv})
+  # non-initial states: enumerated graphs x query orders
+  gtot = {"graphs": 0, "queries": 0, "true": 0}
+  if not os.environ.get("VERIF_C08_ONLY"):
+    for item, (st, viol) in vrun.pmap(graph_work, graph_items(tier), seed=seed, chunksize=1):
+      for k2, v2 in st.items():
+        gtot[k2] += v2
+      for spec, summ, extra in viol:
+        rep.violation(vrun.jkey({"graph": spec, "query": extra}), "query order on an enumerated graph: " + summ,
+                      {"kind": "graph-queries", "spec": spec, "query": extra})
+    states += gtot["queries"]
+    trans += gtot["queries"]
+    rep.outcome("graph-queries-true", gtot["true"])
+    rep.outcome("graph-queries", gtot["queries"])
   rep.cov.update({"states": states, "transitions": trans, "traces_validated_against_impl": trans,
-                  "explorations": allb})
+                  "explorations": allb,
+                  "enumerated_graph_phase": dict(gtot, families=[list(map(str, it[:1] + it[2:])) for it in graph_items(tier)[:0]],
+                                                 what="every graph of the families (see graph_items) x all HasCombination queries "
+                                                      "(|S|<=2) asked forward on one program, in reverse on a second, each on a fresh "
+                                                      "program, and again on the first")})
   rep.evaluations = trans
   rep.nontrivial_extra = states
   rep.outcome("states", states)
@@ -315,6 +398,21 @@ def run(rep, tier, seed):
 
 def replay(case):
   boot.load()
+  if case.get("kind") == "graph-queries":
+    from vk import tg
+    spec = case["spec"]
+    n, b = spec["n"], len(spec["vars"])
+    queries = [(q, S) for q in range(n) for S in tg.subsets(range(b), 2)]
+    ga, gb = tg.build(spec), tg.build(spec)
+    fwd = [ga.nodes[q].HasCombination([ga.bobjs[i] for i in S]) for q, S in queries]
+    rev = [gb.nodes[q].HasCombination([gb.bobjs[i] for i in S]) for q, S in reversed(queries)][::-1]
+    for k, (q, S) in enumerate(queries):
+      gf = tg.build(spec)
+      fresh = gf.nodes[q].HasCombination([gf.bobjs[i] for i in S])
+      if not (fwd[k] == rev[k] == fresh):
+        return [{"key": vrun.jkey({"graph": spec, "query": {"q": q, "S": list(S)}}),
+                 "summary": "HasCombination(n%d, %s): fresh %s, forward %s, reverse %s" % (q, list(S), fresh, fwd[k], rev[k])}]
+    return []
   hist = tuple(_tup(op) for op in case["history"])
   m = Hist(max_nodes=9, max_vars=9, max_bindings=9, max_warm=9, kmax=2)
   s = m.build(hist)
